@@ -113,15 +113,16 @@ Theorem c19_handle_agrees_quiescent : forall cf fx,
 Proof. exact agrees_when_all_completed. Qed.
 Print Assumptions c19_handle_agrees_quiescent.
 
-(* ... and at EVERY reachable state of such a run (operations in flight, clients crashed): a handle never counts
-   fewer addresses of a block than the block records for it. *)
+(* ... and in EVERY reachable state, with no bound on the number of conflicts (operations in flight, clients crashed,
+   roll-backs abandoned after cf_retries attempts): a handle never counts fewer addresses of a block than the block
+   records for it, so every recorded address stays reachable from its handle. *)
 Theorem c19_handle_never_undercounts : forall cf fx,
   cf_count_requested cf = false -> cf_aip_leak cf = false -> cf_stale_cache cf = false -> cf_bsize cf <> O ->
-  forall clients evs B,
-  Forall (fun hc => Forall (wf_op cf) (snd hc)) clients -> within_budget cf fx clients evs B ->
+  forall clients evs,
+  Forall (fun hc => Forall (wf_op cf) (snd hc)) clients ->
   forall h c, (alloc_of (sy_store (sys_run (sys0 cf fx true clients) evs)) h c <=
                hcnt_of (sy_store (sys_run (sys0 cf fx true clients) evs)) h c)%N.
-Proof. exact never_undercounts. Qed.
+Proof. exact never_undercounts_all. Qed.
 Print Assumptions c19_handle_never_undercounts.
 
 (* The pinned releaseByHandle (fy = false) violates both: a run in which every client completes, the block records
